@@ -17,6 +17,9 @@ REPLAYS = os.path.join(ROOT, "replays")
 EVIDENCE = os.path.join(ROOT, "evidence")
 CORPUS = os.path.join(ROOT, "corpus")
 
+# the repository under test: /repo, unless a background sweep points at a snapshot of it
+REPO = os.environ.get("VERIF_REPO") or os.environ.get("VP_RUN_REPO") or "/repo"
+
 GOENV = dict(os.environ, GOFLAGS="-mod=mod", GOPROXY="off", GOSUMDB="off", GOTOOLCHAIN="local",
              GOCACHE=os.environ.get("GOCACHE", os.path.join(ROOT, "work", "gocache")))
 
@@ -41,13 +44,15 @@ def build_harness():
     """go build -tags verif against /repo's working tree.  Returns (ok, output)."""
     os.makedirs(os.path.join(HARNESS_DIR, "bin"), exist_ok=True)
     os.makedirs(WORK, exist_ok=True)
-    src = "/repo/go.sum"
+    src = os.path.join(REPO, "go.sum")
     if os.path.exists(src):
         with open(src) as f, open(os.path.join(HARNESS_DIR, "go.sum"), "w") as g:
             g.write(f.read())
     for b in (HARNESS, EXTRACT):
         if os.path.exists(b):
             os.remove(b)
+    if REPO != "/repo":
+        sh(["go", "mod", "edit", "-replace=github.com/cbehopkins/gkvlite=" + REPO], cwd=HARNESS_DIR, env=GOENV)
     rc, out = sh(["go", "build", "-tags", "verif", "-o", HARNESS, "./cmd/harness"], cwd=HARNESS_DIR, env=GOENV)
     if rc != 0:
         return False, out
@@ -62,10 +67,10 @@ def run_extract():
     for f in os.listdir(gen):
         if f.endswith(".lean"):
             os.remove(os.path.join(gen, f))
-    rc, out = sh([EXTRACT, "-repo", "/repo", "-out", gen], env=GOENV)
+    rc, out = sh([EXTRACT, "-repo", REPO, "-out", gen], env=GOENV)
     if rc != 0:
         return False, out
-    rc, out2 = sh([EXTRACT, "-repo", "/repo", "-pkg", "tools/view", "-out", gen], env=GOENV)
+    rc, out2 = sh([EXTRACT, "-repo", REPO, "-pkg", "tools/view", "-out", gen], env=GOENV)
     return rc == 0, out + out2
 
 
